@@ -10,18 +10,21 @@
    every step twice:
 
    Conformance   the observed result class and the observed new list equal what the model
-                 of the code *as built* predicts (BuildOp, Check over the versions committed
-                 since the read version, ApplyList).  A mismatch is a nonconformance
-                 (class "result" / "state" / "raw" / "version").
+                 predicts (BuildOp, Check over the versions committed since the read version,
+                 ApplyList) for some subset of the deviations `Believed` to describe the code;
+                 the table's rows and fragments are untouched by MemWAL calls.  A mismatch is a
+                 nonconformance (class "result" / "state" / "raw" / "rows" / "version").
    The property  the seven invariants of MemWalOps evaluated on the observed history.  A new
                  violation is recorded together with the deviations that were *necessary* to
-                 explain the step (the as-built prediction changes when the deviation is
-                 switched off); a violating step that needed none inherits the deviations of
-                 the closest earlier deviating step of its scenario.
+                 explain the step (the smallest explaining subset, MemWalOps!Explain); a
+                 violating step that needed none inherits the deviations of the closest earlier
+                 deviating step of its scenario.
 
    Failures are collected in `bad` (printed as BAD at the end of each scenario); the run always
    reaches the end and prints one REPORT. *)
 EXTENDS MemWalOps, Json, IOUtils, SequencesExt
+
+CONSTANT Believed      \* the deviations currently believed to describe the code (a subset of AsBuilt)
 
 Rec == ndJsonDeserialize(IOEnv.TRACE)
 N == Len(Rec)
@@ -43,18 +46,18 @@ IsErr(P) == "error" \in DOMAIN P
 
 Kinds == {"create", "checkout", "advance", "append", "seal", "flush", "merge", "owner", "trim", "mmerge", "tappend"}
 Counters == Kinds \cup {"scenarios", "events", "ok", "incompatible", "invalid", "unsupported", "other",
-                        "stale_ok", "stale_incompatible", "versions_judged", "skipped_steps", "rows_dropped",
+                        "stale_ok", "stale_incompatible", "versions_judged", "skipped_steps",
                         "explained_by_deviation"} \cup AsBuilt
 Bump(c, names) == [x \in DOMAIN c |-> c[x] + (IF x \in names THEN 1 ELSE 0)]
 
-Init == /\ l = 1 /\ obs = <<>> /\ raw = [list |-> <<>>, rows |-> 0] /\ hvT = <<>> /\ scn = 0
+Init == /\ l = 1 /\ obs = <<>> /\ raw = [list |-> <<>>, rows |-> 0, frags |-> 0] /\ hvT = <<>> /\ scn = 0
         /\ lastDev = <<>> /\ skip = FALSE /\ bad = <<>>
         /\ cnt = [x \in Counters |-> 0]
 
 AddBad(entries) == bad \o entries
 
 Reset(e) ==
-  /\ obs' = <<>> /\ raw' = [list |-> <<>>, rows |-> 0] /\ hvT' = <<>> /\ scn' = e.scn
+  /\ obs' = <<>> /\ raw' = [list |-> <<>>, rows |-> 0, frags |-> 0] /\ hvT' = <<>> /\ scn' = e.scn
   /\ lastDev' = <<>> /\ skip' = FALSE
   /\ (IF bad = <<>> THEN TRUE ELSE PrintT(<<"BAD", ToJson(bad)>>))   \* failures of the finished scenario
   /\ bad' = <<>>
@@ -79,7 +82,7 @@ Step(e) ==
   THEN \* the creating step
        LET good == k = "create" /\ e.res = "ok" /\ P.v = 1 /\ ~P.idx /\ P.list = <<>> IN
        /\ obs' = <<[idx |-> FALSE, list |-> <<>>, txn |-> NoTxn]>>
-       /\ raw' = [list |-> P.list, rows |-> P.rows]
+       /\ raw' = [list |-> P.list, rows |-> P.rows, frags |-> P.frags]
        /\ hvT' = e.handles
        /\ skip' = ~good
        /\ bad' = IF good THEN bad ELSE AddBad(<<<<l, e.scn, e.i, k, "Conformance", <<"create">> >>>>)
@@ -102,21 +105,27 @@ Step(e) ==
   ELSE
   LET rv == hvT[st.h]
       op == CallOf(st)
-      pa == Predict(AsBuilt, obs, rv, op)
       okObs == e.res = "ok"
-      confRes == e.res = pa.res
+      ex == Explain(Believed, obs, rv, op, e.res, P.idx, pl)
+      pa == ex.p
       confVer == P.v = (IF okObs THEN Lv + 1 ELSE Lv)
-      confState == IF okObs THEN P.idx = pa.ver.idx /\ pl = pa.ver.list
+      confRes == ex.ok \/ e.res = pa.res
+      confState == IF okObs THEN ex.ok
                    ELSE P.idx = L.idx /\ pl = L.list /\ P.list = raw.list          \* a failed call changes nothing
       touched == Writes(pa.t) \cup pa.t.removed
       confRaw == /\ \A i \in 1..Len(P.list) : P.list[i].n = P.list[i].hi           \* entry ids are 1..hi
                  /\ P.nidx = (IF P.idx THEN 1 ELSE 0)
                  /\ okObs => \A x \in SeqSet(raw.list) : Id(x) \notin touched => x \in SeqSet(P.list)
+      \* the table itself: a MemWAL call leaves rows and fragments alone; the merge_insert / append of the
+      \* scenarios add one row in one new fragment; a failed call changes nothing
+      grow == IF okObs /\ k \in {"mmerge", "tappend"} THEN 1 ELSE 0
+      confRows == P.rows = raw.rows + grow /\ P.frags = raw.frags + grow
       cls == IF ~confVer THEN <<"version">> ELSE IF ~confRes THEN <<"result">>
-             ELSE IF ~confState THEN <<"state">> ELSE IF ~confRaw THEN <<"raw">> ELSE <<>>
+             ELSE IF ~confState THEN <<"state">> ELSE IF ~confRaw THEN <<"raw">>
+             ELSE IF ~confRows THEN <<"rows">> ELSE <<>>
       conforms == cls = <<>>
-      \* deviations without which the as-built model would not have predicted this step
-      necSeq == IF conforms THEN NecSeq(obs, rv, op) ELSE <<>>
+      \* deviations without which the model would not have predicted this step
+      necSeq == IF ex.ok THEN ex.dev ELSE <<>>
       necessary == SeqSet(necSeq)
       dev == IF necSeq # <<>> THEN necSeq ELSE lastDev
       newver == [idx |-> P.idx, list |-> pl, txn |-> pa.t]
@@ -127,7 +136,7 @@ Step(e) ==
       resC == IF e.res \in {"ok", "incompatible", "invalid", "unsupported"} THEN e.res ELSE "other"
   IN
   /\ obs' = obs2
-  /\ raw' = [list |-> P.list, rows |-> P.rows]
+  /\ raw' = [list |-> P.list, rows |-> P.rows, frags |-> P.frags]
   /\ hvT' = e.handles
   /\ skip' = ~confVer
   /\ lastDev' = dev
@@ -137,7 +146,6 @@ Step(e) ==
                       \cup (IF stale /\ e.res = "ok" THEN {"stale_ok"} ELSE {})
                       \cup (IF stale /\ e.res = "incompatible" THEN {"stale_incompatible"} ELSE {})
                       \cup (IF okObs /\ confVer THEN {"versions_judged"} ELSE {})
-                      \cup (IF okObs /\ k # "tappend" /\ k # "mmerge" /\ P.rows < raw.rows THEN {"rows_dropped"} ELSE {})
                       \cup (IF necessary # {} THEN {"explained_by_deviation"} ELSE {})
                       \cup necessary)
   /\ UNCHANGED scn
